@@ -91,6 +91,25 @@ func (cr *compRun) runLossy() {
 	}
 	// quiescent: one final drain must deliver everything that was recorded successfully
 	drain()
+	// ... and so must every later one: a few late recordings, one at a time from fresh tasks (their
+	// probes may land on stripes that are not attached yet), each followed by a drain at quiescence
+	for i := 0; i < 1+(len(cc.Tasks)+cc.Size)%4; i++ {
+		id := 9_000_000 + i
+		var st lossy.Status
+		late := w.Spawn(fmt.Sprintf("late%d", i), func() {
+			attempted[id] = true
+			st = s.Add(nm.Create(id, id, 0, 0, 1))
+		})
+		w.Join(late)
+		if st == lossy.Success {
+			success[id] = true
+			statusN["success-late"]++
+		}
+		drain()
+		if st == lossy.Success && delivered[id] == 0 {
+			cr.fail(P("C17"), "lossy.lost", id, "entry %d was recorded successfully at quiescence but the drain that followed did not deliver it", id)
+		}
+	}
 	if maxLen > capacity {
 		cr.fail(P("C17"), "lossy.capacity", -1, "Len()=%d exceeds the fixed capacity %d (%d stripes x %d)", maxLen, capacity, cc.Size, ring)
 	}
